@@ -921,7 +921,13 @@ pub fn instance(ctx: &Ctx, family: &str, idx: u64) -> (Value, String, &'static s
         opts.force_slots = true;
     }
     let tag = format!("h{}c{}", ctx.seed, idx);
-    let input = gen::generate(&mut rng, &opts, &tag);
+    let mut input = gen::generate(&mut rng, &opts, &tag);
+    if rng.chance(1, 10) {
+        // a network where a detour over a maintenance slot is feasible but the direct connection
+        // is not: dummy tours with a gap arise when the slot is stripped
+        input = gen::gap_network(&mut rng, &tag);
+        return (input, tag, "gap_network", rng);
+    }
     (input, tag, profile.name(), rng)
 }
 
